@@ -120,9 +120,97 @@ def write_replay(pid, seed, k, payload):
     return os.path.relpath(fn, paths.VERIF)
 
 
-def _safe_impl(check, case):
+class CaseTimeout(BaseException):
+    """Raised by the per-case alarm: the implementation (or the oracle) did not come back in time."""
+
+
+_TIMEOUTS_SEEN = [0]
+
+
+def _case_limit(check):
+    """Seconds one implementation run / oracle evaluation of one case may take.  A change that makes the real code loop
+    for ever (or blow up exponentially) must become a verdict with the case as replay, not a hanging check; after three
+    time-outs the limit drops so that shrinking and the rest of the run stay bounded."""
+    base = float(getattr(check, "case_timeout", 0) or os.environ.get("VERIF_CASE_TIMEOUT", 90))
+    if _TIMEOUTS_SEEN[0] == 0:
+        return base
+    return min(base, 10.0) if _TIMEOUTS_SEEN[0] < MAX_TIMEOUTS else min(base, 3.0)
+
+
+MAX_TIMEOUTS = 5   # after that many cases without an answer the case loop stops: the verdict and its replay exist
+
+
+class CaseMemory(BaseException):
+    """Raised by the per-case watchdog: the process grew beyond the per-case memory limit."""
+
+
+def _rss_bytes():
     try:
-        return check.impl(case), None
+        with open("/proc/self/statm") as f:
+            return int(f.read().split()[1]) * 4096
+    except Exception:
+        return 0
+
+
+class _limited(object):
+    """Context manager: a one-second watchdog (SIGALRM, main thread only; no-op elsewhere) that raises CaseTimeout once
+    `seconds` have passed and CaseMemory once this process's resident size exceeds VERIF_CASE_MEM_GB (default 8), so that
+    an endless loop or an exponential blow-up of the real code becomes a verdict with the case as replay.  (An rlimit is
+    not used: it would be inherited by the child processes some harnesses start — Lean drivers, stand-in processors.)"""
+    def __init__(self, seconds):
+        self.seconds = seconds
+        self.armed = False
+        self.mem = int(float(os.environ.get("VERIF_CASE_MEM_GB", 8)) * (1 << 30))
+
+    def _fire(self, signum, frame):
+        if time.time() - self.t0 >= self.seconds:
+            raise CaseTimeout()
+        if _rss_bytes() > self.mem:
+            raise CaseMemory()
+
+    def __enter__(self):
+        try:
+            import signal
+            import threading
+            if threading.current_thread() is threading.main_thread():
+                self.t0 = time.time()
+                self.old = signal.signal(signal.SIGALRM, self._fire)
+                signal.setitimer(signal.ITIMER_REAL, min(1.0, self.seconds), 1.0)
+                self.armed = True
+        except Exception:
+            self.armed = False
+        return self
+
+    def __exit__(self, *exc):
+        if self.armed:
+            import signal
+            signal.setitimer(signal.ITIMER_REAL, 0)
+            signal.signal(signal.SIGALRM, self.old)
+        return False
+
+
+def _limit_memory():
+    return None
+
+
+def _unlimit_memory(old):
+    return None
+
+
+def _safe_impl(check, case):
+    lim = _case_limit(check)
+    try:
+        with _limited(lim):
+            return check.impl(case), None
+    except CaseTimeout:
+        _TIMEOUTS_SEEN[0] += 1
+        return None, {"clause": "the implementation does not come back on this input (no answer within the per-case time limit)",
+                      "detail": "no result after %.0f s" % lim}
+    except (MemoryError, CaseMemory):
+        import gc
+        gc.collect()
+        return None, {"clause": "the implementation exhausts memory on this input",
+                      "detail": "the process grew beyond the per-case memory limit"}
     except Exception as e:   # an exception escaping the harness's own mapping
         return None, {"clause": "harness: unexpected exception from implementation run",
                       "detail": "%s: %s" % (type(e).__name__, e),
@@ -147,7 +235,14 @@ def evaluate(check, case):
     if crash is not None:
         return CRASHED, [crash]
     try:
-        fails = list(check.oracle(case, res) or [])
+        with _limited(_case_limit(check)):
+            fails = list(check.oracle(case, res) or [])
+    except CaseTimeout:
+        _TIMEOUTS_SEEN[0] += 1
+        fails = [{"clause": "the implementation does not come back on this input (the direct oracle, which calls the real "
+                            "code, got no answer within the per-case time limit)", "detail": "time limit"}]
+    except (MemoryError, CaseMemory):
+        fails = [{"clause": "the implementation exhausts memory on this input", "detail": "memory limit reached in the oracle's calls"}]
     except Exception as e:
         fails = [{"clause": "harness: oracle raised", "detail": "%s: %s" % (type(e).__name__, e),
                   "trace": traceback.format_exc()[-1500:]}]
@@ -241,6 +336,7 @@ def run(check, tier, seed):
 
     # 4./5. cases: corpus first, then generated
     check.setup()
+    _mem_old = _limit_memory()
     try:
         all_cases = [(src, c) for src, c in load_corpus(pid)]
         n_corpus = len(all_cases)
@@ -250,7 +346,21 @@ def run(check, tier, seed):
         nontrivial = set()
         results = []
         oracle_fail = []      # (idx, failure)
+        loop_t0 = time.time()
+        loop_budget = float(os.environ.get("VERIF_CASE_LOOP_BUDGET", 600 if tier == "quick" else 10800))
         for idx, (src, case) in enumerate(all_cases):
+            if oracle_fail and time.time() - loop_t0 > loop_budget:
+                # far beyond any run on the unchanged tree (quick tiers take 1–2 minutes): the real code has become
+                # pathologically slow on the generated inputs; failures have been seen, so stop and report them
+                log.append("case loop stopped after %.0f s (budget %.0f s) at case %d of %d"
+                           % (time.time() - loop_t0, loop_budget, idx, len(all_cases)))
+                del all_cases[idx:]
+                break
+            if _TIMEOUTS_SEEN[0] >= MAX_TIMEOUTS:
+                # the real code no longer comes back on several inputs: stop evaluating, keep what was seen
+                log.append("case loop stopped after %d time-outs at case %d of %d" % (MAX_TIMEOUTS, idx, len(all_cases)))
+                del all_cases[idx:]
+                break
             res, fails = evaluate(check, case)
             results.append(res)
             for f in fails:
@@ -263,6 +373,8 @@ def run(check, tier, seed):
             except Exception:
                 pass
 
+        _unlimit_memory(_mem_old)   # the Lean driver is a child process: lift the limit before starting it
+        _mem_old = None
         # correspondence
         disagreements = []
         reqs = []
@@ -406,6 +518,7 @@ def run(check, tier, seed):
                  len(disagreements), len(oracle_fail), n_known, time.time() - t0))
         return exit_code
     finally:
+        _unlimit_memory(_mem_old)
         check.teardown()
 
 
